@@ -239,7 +239,7 @@ def discovered(graph, st, recs, world_files, world_mtimes=None):
         if c is None:
             return None
         body = c.split(":", 1)[1] if ":" in c else ""
-        return body.split()
+        return [t for t in body.replace("\\\n", " ").split() if t != "\\"]
     return []
 
 
@@ -320,8 +320,8 @@ def expected_runs(graph, targets, world, recs, clean_files):
             newc = _simulate(graph, s, sim)
             for o in outs:
                 c = newc.get(o, clean_files.get(o))
-                if not graph.restat(s):
-                    rewritten[o] = True
+                if not graph.restat(s) or s.get("early"):
+                    rewritten[o] = True       # (a command that starts writing in place right away rewrites whatever it ends up with)
                 else:
                     rewritten[o] = (o not in world) or (sim.get(o) != c)
                 if c is not None:
